@@ -72,11 +72,11 @@ class ParticleReleaser(Iterator[pd.DataFrame]):
 
         self.clean_position(grid)
 
-        # Remove everything after simulation stop time
+        # Remove everything at or after simulation stop time (the stop time itself is never simulated)
         if timer.time_reversal:
-            self._df = self._df[self._df.index >= self.stop_time]  # Use < ?
+            self._df = self._df[self._df.index > self.stop_time]
         else:
-            self._df = self._df[self._df.index <= self.stop_time]  # Use < ?
+            self._df = self._df[self._df.index < self.stop_time]
         if len(self._df) == 0:  # All release after simulation time
             logger.critical("All particles released after simulation stop")
             raise SystemExit(3)
